@@ -1,9 +1,55 @@
-(* C07 — see DESIGN.md section 7/C07.  Only property theorems here. *)
-From Flyt Require Import Base Script FlowTable Engine BatchConc EngineCorr EngineFacts BatchConcFacts.
+(* C07 — Batch processes every item exactly once, with per-item retry and fallback.
+   Only property theorems here. All schedules, all item / worker counts, all user code. *)
+From Flyt Require Import Base Script FlowTable Engine BatchConc EngineCorr EngineFacts
+     ItemMon BatchConcInv BatchConcItems C02Proofs.
 
-(* the concurrent executor only appends callback events (it never rewrites the log and the
-   context is cancelled afterwards exactly when it was before or an event cancelled it) *)
-Theorem C07_executor_appends :
-  forall o rel c k st n s its s' rs, gated_exec o rel c k st n s its = (s', rs) -> ext s s'.
-Proof. exact gated_exec_ext. Qed.
-Print Assumptions C07_executor_appends.
+(* In every reachable state, under every schedule, what has been done on behalf of item i is a
+   (prefix of a) processing of item i in the sense of the per-item monitor: exec attempts with
+   item i until the first success, at most N of them, then the fallback exactly when all N
+   failed and the node has one, with the item and the last error.  The monitor reads the
+   events of item i only: no other item can prevent, repeat or alter them. *)
+Theorem C07_item_processing_independent :
+  forall (o : oracle) c nd (items : list val) stopmode nworkers qcap,
+    has_exec c = true ->
+    forall s0 sched i,
+      let s := brun o c nd items stopmode qcap (binit items nworkers s0) sched in
+      i < length items -> 0 < N c -> irun c nd (item_at items i) (il s i) <> IBad.
+Proof. exact never_bad_lemma. Qed.
+Print Assumptions C07_item_processing_independent.
+
+(* and when the batch is through, the slot of every item is the result that monitor state
+   stands for (see C06_slots_positional for the statement; repeated here for C07's claim "its
+   slot holds the error of its last attempt or the fallback's outcome") *)
+Theorem C07_slot_is_item_outcome :
+  forall (o : oracle) c nd (items : list val) stopmode nworkers qcap,
+    has_exec c = true ->
+    forall s0 sched,
+      let s := brun o c nd items stopmode qcap (binit items nworkers s0) sched in
+      (mpc s = MClose \/ mpc s = MRet) ->
+      length (slots s) = length items /\
+      forall i, i < length items ->
+        exists v, slot_at s i = Some v /\ settled c nd (item_at items i) (il s i) v.
+Proof. exact all_settled_lemma. Qed.
+Print Assumptions C07_slot_is_item_outcome.
+
+(* every item is handed to at most one worker (exactly once: item i is received when the
+   receive counter is i, and the counter only grows) *)
+Theorem C07_one_worker_per_item :
+  forall (o : oracle) c nd (items : list val) stopmode nworkers qcap s0 sched k k' i pc pc',
+    let s := brun o c nd items stopmode qcap (binit items nworkers s0) sched in
+    nth_error (ws s) k = Some (WRun i pc) -> nth_error (ws s) k' = Some (WRun i pc') -> k = k'.
+Proof.
+  intros. eapply (one_worker_per_item items nworkers); eauto.
+  apply brun_inv. apply binit_inv.
+Qed.
+Print Assumptions C07_one_worker_per_item.
+
+(* the sequential path and each item's retry loop: the budget-exact counting theorem of C02 *)
+Theorem C07_item_budget_exact :
+  forall (o : oracle) c n s item s' r N w,
+    has_exec c = true -> retry_of c = (N, w) -> 1 <= N -> cancelled s = false ->
+    exec_with_retries o c n s item = (s', r) ->
+    exists evs, log s' = log s ++ evs /\
+      (existsb ev_cancel evs = false -> phase_exact c n N item evs).
+Proof. exact exec_with_retries_exact. Qed.
+Print Assumptions C07_item_budget_exact.
